@@ -275,7 +275,7 @@ func init() {
 		},
 		Gen: func(r *Rng, tier string) *genProfile {
 			return &genProfile{MaxSteps: steps(tier, 40, 100), Default: 0, FollowUp: 60, Template: 45,
-				Templates: []string{"recover_flow", "recover_flow", "remember_then_reset", "remember_cycle", "op_reset"},
+				Templates: []string{"recover_flow", "recover_flow", "remember_then_reset", "remember_cycle", "op_reset", "rotated_then_reset"},
 				Weights: withW(loginWeights, map[string]int{"recover_start": 8, "recover_end": 10, "op_update_password": 8, "probe": 10, "drop_session": 6,
 					"stale_cookie": 6, "copy_cookie": 3, "oauth2_start": 1, "oauth2_callback": 1}),
 				BadSecret: 30, FaultRate: []int{0, 0, 60}[r.Intn(3)], ThreshGaps: 8, SmallGaps: 20}
